@@ -288,12 +288,12 @@ func report(r *Runner, prop, tier, evidence, known string, noReplay bool, loadT,
 				}
 				if res.Panicked {
 					confirmed = "reproduced"
-					detail = "native run panicked: " + res.PanicMsg
+					detail = "native run panicked: " + firstLine(res.PanicMsg)
 				}
 			case g.f.Kind == "panic":
 				if res.Panicked {
 					confirmed = "reproduced"
-					detail = res.PanicMsg
+					detail = firstLine(res.PanicMsg)
 				}
 			case g.f.Kind == "frame":
 				// a store into a pre-existing object has no native trap; the harness's own
@@ -326,7 +326,7 @@ func report(r *Runner, prop, tier, evidence, known string, noReplay bool, loadT,
 			"model": modelStrings(g.f.Model, g.f.Vars), "case": rc, "native": confirmed, "native_detail": detail, "decisions": g.f.Extra["decisions"]}, "", " ")
 		os.WriteFile(rp, b, 0o644)
 		violLines = append(violLines, fmt.Sprintf("VIOLATION property=%s replay=%s", prop, rp))
-		fmt.Printf("  violation: %s — %s (%s; native: %s %s) model=%v choices=%v\n", sig, g.f.Msg, g.f.Label, confirmed, detail, modelStrings(g.f.Model, g.f.Vars), g.f.Choices)
+		fmt.Printf("  violation: %s — %s (native: %s %s) model=%v\n", sig, firstLine(g.f.Msg), confirmed, detail, modelStrings(g.f.Model, g.f.Vars))
 		violSamples = append(violSamples, map[string]interface{}{"signature": sig, "model": modelStrings(g.f.Model, g.f.Vars), "choices": g.f.Choices, "message": g.f.Msg})
 	}
 	os.RemoveAll(workDir)
@@ -458,6 +458,16 @@ func report(r *Runner, prop, tier, evidence, known string, noReplay bool, loadT,
 		return 2
 	}
 	return 0
+}
+
+func firstLine(s string) string {
+	if i := strings.IndexByte(s, '\n'); i >= 0 {
+		s = s[:i]
+	}
+	if len(s) > 200 {
+		s = s[:200]
+	}
+	return s
 }
 
 func tailStr(s string, n int) string {
